@@ -7,6 +7,15 @@ From TV Require Export Model.SegClasses.
 Definition gb_is (c : gbc) (o : obs) : bool := gbc_beq (o_gb o) c.
 Definition wb_is (c : wbc) (o : obs) : bool := wbc_beq (o_wb o) c.
 
+(* what the tables guarantee about one rune (checked on every driver run for the runes used, and for all
+   code points by the table theorems of C20): pictographic runes have no grapheme class, and CR / LF are
+   exactly the runes of their grapheme classes *)
+Definition obs_wf_g (o : obs) : bool :=
+  (negb (o_pic o) || gbc_beq (o_gb o) GB_None)
+  && Bool.eqb (o_cr o) (gbc_beq (o_gb o) GB_CR)
+  && Bool.eqb (o_lf o) (gbc_beq (o_gb o) GB_LF).
+
+
 (* ---------- grapheme clusters ---------- *)
 Definition gb_control (o : obs) : bool := gb_is GB_Control o || gb_is GB_CR o || gb_is GB_LF o.
 
